@@ -30,7 +30,8 @@ def frame(cats, nums, seed, reps=None):
     rows = [rows[i] for i in perm]
     d = {c: [r[i] for r in rows] for i, c in enumerate(cats)}
     for v in nums:
-        d[v] = rng.choice(np.arange(-40, 41)[np.arange(-40, 41) != 0], size=n, replace=n > 80).astype(np.int64) * 3 + rng.randint(1, 3, size=n)
+        # exact dyadic rationals that are not integers (float64 holds them exactly; a truncation to int is visible)
+        d[v] = (rng.choice(np.arange(-40, 41)[np.arange(-40, 41) != 0], size=n, replace=n > 80).astype(np.int64) * 3 + rng.randint(1, 3, size=n)) / 4.0 + 0.125
     d["y"] = rng.randint(-9, 9, size=n)
     return pd.DataFrame(d), rows
 
@@ -38,7 +39,7 @@ def frame(cats, nums, seed, reps=None):
 def gen2(x):
     """stand-in for multi-column numeric atoms (bs / poly without their floats)"""
     x = np.asarray(x)
-    return np.column_stack([x, x * x % 17 - 8])
+    return np.column_stack([x, (x * 8) * (x * 8) % 17 - 8.5])
 
 
 def atom_vars(term):
@@ -282,7 +283,7 @@ def run(tier, seed):
     base, extra = families(tier)
     rep.bounds = {"base family": f"{len(base)} formulas: every ordered family of <= 3 terms over the 15 non-empty subsets of f, g, h (categorical, 2/3/2 levels) and x (numeric), with and without intercept",
                   "extra": f"{len(extra)} formulas: factor orders inside terms, a second numeric z, C/T/S coded atoms, a two-column numeric atom gen2(x)" + ("" if tier == "quick" else ", every factor order for families of <= 2 terms, a 1/7 slice of all families over four factors"),
-                  "data": "replicated complete factorial (>= 2 replications, >= 16 rows) in scrambled row order, integer numeric columns from VERIF_SEED"}
+                  "data": "replicated complete factorial (>= 2 replications, >= 16 rows) in scrambled row order, exact non-integer dyadic numeric columns from VERIF_SEED"}
     rep.outside = ["bs / poly / scale atoms themselves (float64 columns: exact rank of a float matrix does not decide a structural dependency); level counts > 3; families of more than 3 terms except the listed ones"]
     rep.assumptions = ["general position by integer pseudo-random data (full rank at one point proves generic full rank; deficiencies re-tested at a second point)"]
     rep.rule = "one case = one formula; non-trivial = the design was built and both linear-algebra obligations were decided"
